@@ -55,7 +55,7 @@ REQUIRED = ["io_roundtrips", "io_tiff", "io_npy", "io_nrrd", "io_uint_to_float",
             "voxels_lit", "raster_anisotropic", "raster_generic_resolution", "raster_far_positions",
             "raster_saved_and_read", "raster_explicit_ranges", "rasters_after_inplace_edit",
             "tap_get_samplers"]
-FLOOR = {"quick": 500, "thorough": 10000}
+FLOOR = {"quick": 450, "thorough": 9000}
 SHARDS = {"quick": 8, "thorough": 16}
 TIMEOUT = {"quick": 400, "thorough": 3000}
 
@@ -425,8 +425,12 @@ def run(ctx):
             u = rng.random()
             if u < 0.35:
                 res = [float(rng.choice([0.5, 1.0, 2.0]))] * 3
-            elif u < 0.6:
+            elif u < 0.5:
                 res = [float(v) for v in rng.choice([0.5, 1.0, 2.0, 0.25], 3)]
+            elif u < 0.7:  # everyday decimal voxel sizes (not representable in binary)
+                res = [float(v) for v in rng.choice([0.2, 0.3, 0.4, 0.6, 0.8, 1.2, 1.6], 3)]
+                if rng.random() < 0.5:
+                    res = [res[0]] * 3
             else:
                 res = [float(v) for v in np.round(rng.uniform(0.4, 2.2, 3), 3)]
                 if rng.random() < 0.3:
